@@ -17,7 +17,10 @@ def cluster_evidence(pid, tier, seed, res, model, new, known, wall):
     cov = {
         "states": max(states, 1) if states else res["events"],
         "transitions": max(transitions, 1) if transitions else res["events"],
-        "traces_validated_against_impl": res["traces"],
+        "traces_validated_against_impl": res.get("traces_conforming", res["traces"]),
+        "traces_recorded": res["traces"],
+        "drift_events": res.get("drift_events", 0),
+        "drift_samples": res.get("drift_samples", []),
         "samples": res.get("sample_events", [])[:5] or [{"note": "no events"}],
         "observed_events": res["events"],
         "formulas": formulas_of(pid),
